@@ -10,13 +10,18 @@
 (***************************************************************************)
 EXTENDS Codec, Json
 
-Arities == { <<>>, <<1>>, <<2, 1>>, <<3>>, <<4>>, <<4, 4>>, <<1, 1, 1>> }
-Lattice == { [H |-> h, cap |-> c, nconst |-> nc, routed |-> rw.r, wires |-> rw.w, nch |-> n, nlp |-> l, npp |-> 9,
-              qdf |-> 8, arities |-> a, dbits |-> d, rate |-> r, q |-> q, hiding |-> z, npi |-> p] :
-             h \in {32, 25}, c \in {0, 1, 4}, nc \in {2, 5}, rw \in {[r |-> 80, w |-> 135], [r |-> 30, w |-> 68]},
-             n \in {1, 2, 3}, l \in {0, 7}, a \in Arities, d \in {3, 5, 12}, r \in {3, 4}, q \in {1, 28},
-             z \in BOOLEAN, p \in {0, 7} }
-Shapes == {s \in Lattice : WellFormed(s)}
+Arities == << <<>>, <<1>>, <<2, 1>>, <<3>>, <<4>>, <<4, 4>>, <<1, 1, 1>> >>
+\* the lattice as a mixed-radix enumeration (the state is just the index)
+Radix == <<2, 2, 2, 2, 2, 7, 2, 2, 2>>
+N == 2 * 2 * 2 * 2 * 2 * 7 * 2 * 2 * 2
+RECURSIVE Digits(_, _)
+Digits(i, k) == IF k > Len(Radix) THEN <<>> ELSE <<i % Radix[k]>> \o Digits(i \div Radix[k], k + 1)
+ShapeOf(i) ==
+  LET d == Digits(i, 1)
+  IN [H |-> <<32, 25>>[d[1] + 1], cap |-> <<0, 4>>[d[2] + 1], nconst |-> 3,
+      routed |-> <<80, 30>>[d[3] + 1], wires |-> <<135, 68>>[d[3] + 1], nch |-> <<1, 3>>[d[4] + 1],
+      nlp |-> <<0, 7>>[d[5] + 1], npp |-> 9, qdf |-> 8, arities |-> Arities[d[6] + 1],
+      dbits |-> <<3, 12>>[d[7] + 1], rate |-> 3, q |-> <<1, 28>>[d[8] + 1], hiding |-> d[9] = 1, npi |-> 7]
 
 \* (3): a tiny tree, every index vector
 Tiny == [H |-> 32, cap |-> 1, nconst |-> 2, routed |-> 3, wires |-> 4, nch |-> 1, nlp |-> 0, npp |-> 1, qdf |-> 2,
@@ -33,13 +38,11 @@ ASSUME CompressedNeverLarger
 ASSUME DuplicatesFree
 ASSUME SingleQuery
 
-VARIABLE todo
-Init == todo = Shapes
-Next == \E s \in todo : todo' = todo \ {s}
-WalkIsSize == \A s \in todo : TRUE
-\* evaluated once per step on one shape (CHOOSE is deterministic): linear in the lattice
-Cur == IF todo = {} THEN Tiny ELSE CHOOSE s \in todo : TRUE
-GrammarAgrees == Walk(Cur) = Size(Cur)
+VARIABLE i
+Init == i = 0
+Next == i < N /\ i' = i + 1
+Cur == ShapeOf(i % N)
+GrammarAgrees == WellFormed(Cur) => Walk(Cur) = Size(Cur)
 OnlyPathsAndPiCountRead == ReadFromInput(Cur) \subseteq {"path0", "path1", "path2", "path3", "step_path", "public_inputs"}
-Sample == (Cardinality(todo) % 97 = 0 /\ todo # {}) => PrintT("SIZE " \o ToJson([shape |-> Cur, size |-> Size(Cur)]))
+Sample == (i % 97 = 0 /\ WellFormed(Cur)) => PrintT("SIZE " \o ToJson([shape |-> Cur, size |-> Size(Cur)]))
 =============================================================================
